@@ -144,6 +144,12 @@ def finish(ctx, floors, tier, seed, t0, extra=None, level_text='', quiet=False):
             'instances_per_rule': dict((r, len(v)) for r, v in sorted(per_rule.items())),
             'floors': floors,
             'functions_analysed': sorted(ctx.functions),
+            'call_sites_in_analysed_functions': sum(len(ctx.facts.bodies[f].calls) for f in ctx.functions
+                                                    if f in ctx.facts.bodies),
+            'basic_blocks_in_analysed_functions': sum(len(ctx.facts.bodies[f].live_blocks()) for f in ctx.functions
+                                                      if f in ctx.facts.bodies),
+            'spliced_helpers': dict((k, v) for k, v in getattr(ctx.facts, 'inlined', {}).items()),
+            'functions_treated_as_renamed': getattr(ctx.facts, 'renamed', {}),
             'bodies_in_fact_file': ctx.facts.nbodies,
             'fact_file': os.path.basename(ctx.facts.path),
             'known_findings': [i.key for i in kf],
